@@ -15,6 +15,7 @@ import (
 )
 
 type evaluator struct {
+	sumDepth int
 	lazy  map[string]ast.Expr
 	x     *Exec
 	fr    *Frame
@@ -550,8 +551,43 @@ func (ev *evaluator) callExpr(n *ast.CallExpr) *Val {
 			}
 			ev.errorf("len of %s", v.Typ)
 		case "old":
-			sub := &evaluator{x: ev.x, fr: ev.fr, st: ev.fr.entry, lets: ev.lets, blk: nil}
+			// heap and captured variables as at function entry; SSA locals are state-independent
+			sub := &evaluator{x: ev.x, fr: ev.fr, st: ev.fr.entry, lets: ev.lets, lazy: ev.lazy, blk: ev.blk, over: ev.over}
 			return sub.ev(n.Args[0])
+		case "loopindex":
+			// the hidden index of the range loop with the given ordinal (index of the last processed element, -1 initially)
+			k, ok := ev.ev(n.Args[0]).T.intVal()
+			if !ok {
+				ev.errorf("loopindex needs a literal loop ordinal")
+			}
+			for h, lp := range ev.fr.loops.headers {
+				if lp.ordinal == int(k) {
+					for _, ins := range h.Instrs {
+						if phi, ok := ins.(*ssa.Phi); ok && phi.Comment == "rangeindex" {
+							if v, ok := ev.over[phi]; ok {
+								return v
+							}
+							return ev.x.get(ev.fr, phi)
+						}
+					}
+				}
+			}
+			ev.errorf("loopindex(%d): no such range loop", k)
+		case "sum":
+			// sum(i, lo, hi, body) = body[lo] + ... + body[hi-1]
+			name := n.Args[0].(*ast.Ident).Name
+			lo := ev.ev(n.Args[1])
+			hi := ev.ev(n.Args[2])
+			// The summand is always evaluated in the function's entry heap, so that every occurrence of the same
+			// source expression denotes the same (canonical) function of the index.
+			bv := ev.x.sumVar(fmt.Sprintf("d%d", ev.sumDepth))
+			sub := &evaluator{x: ev.x, fr: ev.fr, st: ev.fr.entry, lets: map[string]*Val{}, lazy: ev.lazy, blk: ev.blk, over: ev.over, sumDepth: ev.sumDepth + 1}
+			for k, v := range ev.lets {
+				sub.lets[k] = v
+			}
+			sub.lets[name] = &Val{T: bv, Typ: intT}
+			body := sub.ev(n.Args[3])
+			return &Val{T: ev.x.sumTerm(ev.st, bv, body.T, lo.T, hi.T), Typ: intT}
 		case "implies":
 			a := ev.ev(n.Args[0])
 			b := ev.ev(n.Args[1])
@@ -772,7 +808,7 @@ func (ev *evaluator) applySpec(sf *SpecFunc, args []ast.Expr) *Val {
 		}
 		return &Val{T: UF("spec."+sanitize(sf.Pkg[strings.LastIndex(sf.Pkg, "/")+1:])+"."+sf.Name, rs, ts...), Typ: rt}
 	}
-	sub := &evaluator{x: ev.x, fr: ev.fr, st: ev.st, over: ev.over, lets: map[string]*Val{}, blk: ev.blk, owned: ev.owned}
+	sub := &evaluator{x: ev.x, fr: ev.fr, st: ev.st, over: ev.over, lets: map[string]*Val{}, blk: ev.blk, owned: ev.owned, sumDepth: ev.sumDepth}
 	// spec bodies are resolved in the package that declares them
 	for i, p := range sf.Params {
 		sub.lets[p.Name] = ev.ev(args[i])
